@@ -184,7 +184,11 @@ def run(ck):
         if isinstance(h, list) and h and isinstance(h[0], dict) and term_io.term_key(h) not in seen:
             seen.add(term_io.term_key(h))
             longs.append(h)
-    hists = (ck.rng.sample(h3, min(len(h3), 500)) if quick else h3) + ck.rng.sample(h4, min(len(h4), 350 if quick else 8000)) + longs[: (150 if quick else 2000)]
+    decl = gen_corpus("SLSDECL4", module="gen/Gen_Hist", deps=DEPS)
+    if not quick:
+        decl = decl + gen_corpus("SLSDECL5", module="gen/Gen_Hist", deps=DEPS)
+    hists = (ck.rng.sample(h3, min(len(h3), 400)) if quick else h3) + ck.rng.sample(h4, min(len(h4), 250 if quick else 8000)) \
+        + longs[: (150 if quick else 2000)] + decl
     env = fresh_env()
     terms, m0, syms = world(env)
     scratch = tempfile.mkdtemp(prefix="c17_")
